@@ -350,6 +350,136 @@ example : Async.AllEnabled 2 (Async.init [10, 20]) [.send, .send, .recv, .close,
 example : Async.terminal 1 (Async.run 1 (Async.init [10, 20]) [.send, .recv, .send, .recv, .close]) := by
   intro t; cases t <;> decide
 
+/-! ### 8. histories on ONE graph: walks never change the graph
+
+    `history` interleaves insertions and walks.  A walk event returns `walkChains` of the current graph and
+    hands the SAME graph to the rest of the history (`history_walk_cons`); so the graph after a history is
+    the graph built by its insertions alone (`history_final_graph`), repeating a walk returns the same
+    chains (`history_walk_twice`), and every walk of a history that starts at the empty graph returns
+    exactly the permitted paths of the graph built so far (`history_reachable`).  The Go harness checks
+    the implementation against this with the canonical dump of the real graph after every event. -/
+
+theorem history_walk_cons (V : Ver) (g : Graph) (c : Cert) (es : List Ev) :
+    history V g (.walk c :: es) =
+      match history V g es with
+      | .ok rest => .ok ((g, some (walkChains V g c)) :: rest)
+      | _ => .panic := by
+  simp only [history, evStep]
+  cases history V g es <;> rfl
+
+theorem history_walk_twice (V : Ver) (g : Graph) (c : Cert) :
+    history V g [.walk c, .walk c] =
+      .ok [(g, some (walkChains V g c)), (g, some (walkChains V g c))] := by
+  simp only [history, evStep]
+
+/-- the insertions of a history -/
+def insOps : List Ev → List Op
+  | [] => []
+  | .ins op :: es => op :: insOps es
+  | .walk _ :: es => insOps es
+
+/-- the graph of the last observation (`g` itself for the empty history) -/
+def lastGraph : Graph → List (Graph × Option (List (List Cert))) → Graph
+  | g, [] => g
+  | _, x :: xs => lastGraph x.1 xs
+
+/-- erasing the walks of a history does not change the graph it ends in -/
+theorem history_final_graph (V : Ver) : ∀ (evs : List Ev) (g : Graph) (obs : List (Graph × Option (List (List Cert)))),
+    history V g evs = .ok obs → run V g (insOps evs) = .ok (lastGraph g obs) := by
+  intro evs
+  induction evs with
+  | nil =>
+    intro g obs h
+    simp only [history, Res.ok.injEq] at h
+    subst h; rfl
+  | cons e es ih =>
+    intro g obs h
+    cases e with
+    | walk c =>
+      rw [history_walk_cons] at h
+      cases hr : history V g es with
+      | ok rest =>
+        simp only [hr, Res.ok.injEq] at h
+        subst h
+        simpa only [insOps, lastGraph] using ih g rest hr
+      | err => simp [hr] at h
+      | panic => simp [hr] at h
+    | ins op =>
+      simp only [history, evStep] at h
+      cases hs : step V g op with
+      | ok g1 =>
+        simp only [hs] at h
+        cases hr : history V g1 es with
+        | ok rest =>
+          simp only [hr, Res.ok.injEq] at h
+          subst h
+          simp only [insOps, run, hs, lastGraph]
+          exact ih g1 rest hr
+        | err => simp [hr] at h
+        | panic => simp [hr] at h
+      | err => simp [hs] at h
+      | panic => simp [hs] at h
+
+/-- every observation of a history keeps the graph invariant, a walk observation carries the graph it
+    was started on unchanged and exactly the permitted paths of that graph -/
+theorem history_inv (V : Ver) : ∀ (evs : List Ev) (g : Graph) (obs : List (Graph × Option (List (List Cert)))),
+    C10.Inv V g → history V g evs = .ok obs →
+    ∀ x ∈ obs, C10.Inv V x.1 ∧ ∀ chs, x.2 = some chs →
+      ∃ c, chs = walkChains V x.1 c ∧ (∀ ch, ch ∈ chs ↔ Paths V x.1 c ch) ∧ chs.Nodup := by
+  intro evs
+  induction evs with
+  | nil =>
+    intro g obs _ h
+    simp only [history, Res.ok.injEq] at h
+    subst h
+    intro x hx; cases hx
+  | cons e es ih =>
+    intro g obs hinv h
+    cases e with
+    | walk c =>
+      rw [history_walk_cons] at h
+      cases hr : history V g es with
+      | ok rest =>
+        simp only [hr, Res.ok.injEq] at h
+        subst h
+        intro x hx
+        rcases List.mem_cons.mp hx with rfl | hx
+        · refine ⟨hinv, fun chs hc => ?_⟩
+          simp only [Option.some.injEq] at hc
+          subst hc
+          exact ⟨c, rfl, fun ch => walk_iff_paths hinv.wf, walk_nodup hinv.wf hinv.adjNodup⟩
+        · exact ih g rest hinv hr x hx
+      | err => simp [hr] at h
+      | panic => simp [hr] at h
+    | ins op =>
+      simp only [history, evStep] at h
+      cases hs : step V g op with
+      | ok g1 =>
+        simp only [hs] at h
+        have hinv1 : C10.Inv V g1 := by
+          obtain ⟨g', hr', hi⟩ := run_inv (V := V) [op] hinv
+          simp only [run, hs, Res.ok.injEq] at hr'
+          subst hr'; exact hi
+        cases hr : history V g1 es with
+        | ok rest =>
+          simp only [hr, Res.ok.injEq] at h
+          subst h
+          intro x hx
+          rcases List.mem_cons.mp hx with rfl | hx
+          · exact ⟨hinv1, fun chs hc => by cases hc⟩
+          · exact ih g1 rest hinv1 hr x hx
+        | err => simp [hr] at h
+        | panic => simp [hr] at h
+      | err => simp [hs] at h
+      | panic => simp [hs] at h
+
+/-- histories that start at the empty graph -/
+theorem history_reachable (V : Ver) (evs : List Ev) (obs : List (Graph × Option (List (List Cert))))
+    (h : history V Graph.empty evs = .ok obs) :
+    ∀ x ∈ obs, ∀ chs, x.2 = some chs →
+      ∃ c, chs = walkChains V x.1 c ∧ (∀ ch, ch ∈ chs ↔ Paths V x.1 c ch) ∧ chs.Nodup :=
+  fun x hx => (history_inv V evs Graph.empty obs (inv_empty V) h x hx).2
+
 /-! ### the hypotheses are satisfiable, the path set is inhabited
 
   `exG` (defined in `ZV.Proofs.C11`) is the graph built by `AddRoot(exR); AddCert(exI)`:
@@ -406,6 +536,12 @@ example : ValidExt exG [exI] exEI [exER] := by
 example : walkChains exV2 exG2 exM = [[exM, exA1, exA2, exR], [exM, exA2, exR]] := by decide
 example : run exV2 Graph.empty [.root exR, .add exA1, .add exA2] = .ok exG2 := exG2_reachable
 example : exA1.sk = exA2.sk := by decide
+
+/-- a history: insert, walk an out-of-graph leaf twice, walk an in-graph certificate; the graph stays `exG` -/
+example : (history exV Graph.empty [.ins (.root exR), .ins (.add exI), .walk exL, .walk exL, .walk exI]).map
+      (fun obs => obs.map (fun x => (x.1 == exG, x.2))) =
+    .ok [(false, none), (true, none), (true, some [[exL, exI, exR]]), (true, some [[exL, exI, exR]]),
+         (true, some [[exI, exR]])] := by decide
 
 /-- the decomposition hypothesis of `paths_no_revisit` on a returned chain -/
 example : [exL, exI, exR] = [] ++ exL :: ([] ++ exI :: exR :: []) ∧ exL.sk ≠ exR.sk := by decide
